@@ -11,6 +11,7 @@ from vf import corpus, harness, instances, pyexec, pysdk, sdkloop, xsdk
 from vf.checks.c10 import mutate_json
 
 LEGS = ("typescript", "java", "cpp")
+JAVA_CAUSE_PREFIX = "Invariant violated:\n"
 
 RULE = (
     "meta-models accepted by all four generators (MMG restricted by probing: lists only "
@@ -316,6 +317,18 @@ def compare_leg(
             continue
         chk.count(f"{leg}_cases_compared")
         chk.count("cases_compared")
+        second = rec.get("with_long_for_ints")
+        if second is not None and case.ref["accepted"] and not rec.get("accepted"):
+            # Java: the documented ``new ObjectMapper().readTree(...)`` yields IntNode for
+            # integers that fit 32 bits, which the generated ``tryLongFrom`` refuses.
+            chk.violation(
+                f"{leg}/deserialise-rejects/int-node-of-documented-object-mapper-for-int|"
+                f"{xsdk.message_class(rec.get('message'))}",
+                witness(case),
+            )
+            chk.count(f"{leg}_cases_continued_with_USE_LONG_FOR_INTS")
+            second["case"] = rec["case"]
+            rec = second
         counter_name = f"{leg}_{'mutants' if case.kind == 'mutant' else 'instances'}_compared"
         chk.count(counter_name)
         if json_leg:
@@ -338,15 +351,21 @@ def compare_leg(
                     path, what = where
                     declared = facts.declared_at(case.cls, case.doc, path)
                     if what == "missing":
-                        supplied = "missing"
+                        shape = f"missing-{declared}"
+                    elif what == "extra" and isinstance(path[-1], str):
+                        shape = (
+                            "unexpected-modelType" if path[-1] == "modelType"
+                            else "unexpected-property"
+                        )
                     else:
                         value = case.doc
                         for seg in path:
                             value = value[seg]
                         supplied = xsdk.supplied_kind(value, declared)
                         if what == "extra":
-                            supplied = "extra-" + supplied
-                    shape = f"{supplied}-for-{declared}"
+                            shape = f"extra-item-{supplied}-in-list"
+                        else:
+                            shape = f"{supplied}-for-{declared}"
                 else:
                     shape = "document-written-by-python-sdk"
                 message = rec.get("message") if verdicts[0] == "accepted" else ref.get("message")
@@ -370,7 +389,18 @@ def compare_leg(
             chk.violation(f"{leg}/driver-printed-no-errors", witness(case))
         else:
             want, unknown_py = errors_counter(ref["errors"], py_map)
-            got, unknown = errors_counter(rec["errors"], lang_map)
+            other_errors = rec["errors"]
+            if leg == "java":
+                # The Java SDK (like the C# one it was ported from) wraps every
+                # description as "Invariant violated:\n<description>" by design.
+                stripped = []
+                for segments, cause in other_errors:
+                    if isinstance(cause, str) and cause.startswith(JAVA_CAUSE_PREFIX):
+                        cause = cause[len(JAVA_CAUSE_PREFIX):]
+                        chk.count("java_causes_with_prefix_stripped")
+                    stripped.append([segments, cause])
+                other_errors = stripped
+            got, unknown = errors_counter(other_errors, lang_map)
             chk.count(f"{leg}_verifications_compared")
             chk.hist(f"{leg}_invariant_outcomes", "no-error" if not want else f"{min(len(want), 5)}{'+' if len(want) > 5 else ''}-errors")
             if want:
@@ -430,17 +460,18 @@ def compare_leg(
 def check_model(
     chk: harness.Check, tools: xsdk.Toolchains, name: str, text: str, rng,
     n_instances: int, n_mutants: int, legs: Tuple[str, ...], timeouts: Dict[str, float],
-) -> None:
+) -> bool:
+    """Return False if the model was not accepted (front end or Python generator)."""
     opened = sdkloop.open_sdk(chk, name, text)
     if opened is None:
-        return
+        return False
     pm, sdk = opened
     generated: List[xsdk.Generated] = []
     try:
         facts = xsdk.Facts(pm)
         cases = build_cases(chk, name, text, pm, sdk, rng, n_instances, n_mutants)
         if not cases:
-            return
+            return True
         ref_tables = py_tables(sdk, facts)
         chk.count("models_with_cases")
         chk.count("reference_instances", sum(1 for c in cases if c.kind != "mutant"))
@@ -484,10 +515,11 @@ def check_model(
                 chk.count(f"{leg}_models_timed_out")
                 continue
             if res.status in ("build-failed", "run-failed"):
-                chk.violation(
-                    f"{leg}/{res.status}|{xsdk.message_class(first_error_line(res.detail))}",
-                    {"leg": leg, "model": name, "text": text, "detail": res.detail[-4000:]},
-                )
+                for where, message in compiler_errors(res.detail):
+                    chk.violation(
+                        f"{leg}/{res.status}/{where}|{xsdk.message_class(message)}",
+                        {"leg": leg, "model": name, "text": text, "detail": res.detail[-4000:]},
+                    )
                 continue
             chk.count(f"{leg}_models_compared")
             if res.sanitizer_reports:
@@ -500,10 +532,29 @@ def check_model(
                 chk, leg, name, text, pm, facts, sdk, cases, res, ref_tables,
                 json_leg=(leg != "cpp"),
             )
+        return True
     finally:
         for gen in generated:
             gen.cleanup()
         sdk.close()
+
+
+def compiler_errors(text: str) -> List[Tuple[str, str]]:
+    """Distinct (file, message) pairs of javac / g++ diagnostics; else the first line."""
+    import re
+
+    found: List[Tuple[str, str]] = []
+    for line in text.splitlines():
+        m = re.search(r"([A-Za-z_0-9]+\.(?:java|cpp|hpp|ts)):[0-9]+(?::[0-9]+)?: (?:fatal )?error: (.*)", line)
+        if m:
+            # identifiers of the model are not part of the mechanism
+            message = re.sub(r"[\u2018'`][^\u2019'`]*[\u2019'`]", "Q", m.group(2))
+            pair = (m.group(1), message)
+            if pair not in found:
+                found.append(pair)
+    if not found:
+        found.append(("?", first_error_line(text)))
+    return found[:6]
 
 
 def first_error_line(text: str) -> str:
@@ -532,26 +583,30 @@ def run_leg(
 
 
 # ------------------------------------------------------------------ driver
-def model_list(chk: harness.Check, n_models: int) -> List[Tuple[str, str, Tuple[str, ...]]]:
-    models: List[Tuple[str, str, Tuple[str, ...]]] = []
-    for i in range(n_models):
-        bytes_len = i % 4 == 3
-        m = xsdk.generate_model(chk.rng("model", i), bytes_len)
-        legs = tuple(l for l in LEGS if not (bytes_len and l == "java"))
-        models.append((f"mmg/{chk.seed}/{i}", m.text, legs))
-    for name, text in corpus.small_common():
-        models.append((name, text, LEGS))
-    return models
-
-
 def worker(args) -> Dict[str, Any]:
-    argv, name, text, legs, n_instances, n_mutants, timeouts = args
+    argv, spec, n_instances, n_mutants, timeouts = args
     chk = harness.Check("C09", "exploration", RULE, argv)
     tools = xsdk.Toolchains()
     try:
-        check_model(
-            chk, tools, name, text, chk.rng("inst", name), n_instances, n_mutants, legs, timeouts
-        )
+        if spec[0] == "corpus":
+            _, name, text = spec
+            check_model(
+                chk, tools, name, text, chk.rng("inst", name), n_instances, n_mutants, LEGS, timeouts
+            )
+        else:
+            _, i = spec
+            java_hostile = i % 2 == 1
+            for attempt in range(4):
+                # ~1 in 8 MMG models is refused by the front end; take the next sub-seed
+                m = xsdk.generate_model(chk.rng("model", i, attempt), java_hostile)
+                name = f"mmg/{chk.seed}/{i}.{attempt}{'/java-hostile' if java_hostile else ''}"
+                if check_model(
+                    chk, tools, name, m.text, chk.rng("inst", name), n_instances, n_mutants,
+                    LEGS, timeouts,
+                ):
+                    for k, v in m.features.items():
+                        chk.hist("mmg_features", k, v)
+                    break
     except RecursionError:
         chk.count("models_abandoned_recursion")
     return chk.export()
@@ -563,24 +618,27 @@ def main(argv) -> int:
     for leg in LEGS:
         if not tools.available(leg):
             chk.unavailable_leg(f"{leg}: {tools.why(leg)}")
-    n_models = chk.pick(5, 48)
+    n_models = chk.pick(6, 48)
     n_instances = chk.pick(40, 80)
     n_mutants = chk.pick(80, 200)
     budget = chk.wall_budget(120, 840)
     timeouts = {
         "typescript": chk.pick(120.0, 240.0),
-        "java": chk.pick(180.0, 300.0),
-        "cpp": chk.pick(420.0, 600.0),
+        "java": chk.pick(240.0, 360.0),
+        "cpp": chk.pick(480.0, 600.0),
     }
-    n_workers = int(os.environ.get("VERIF_C09_WORKERS", "0")) or chk.pick(6, 6)
-    models = model_list(chk, n_models)
-    with concurrent.futures.ProcessPoolExecutor(max_workers=n_workers) as pool:
-        jobs = []
-        for name, text, legs in models:
-            jobs.append(
-                pool.submit(worker, (list(argv), name, text, legs, n_instances, n_mutants, timeouts))
-            )
+    n_workers = int(os.environ.get("VERIF_C09_WORKERS", "0")) or 6
+    specs: List[Tuple] = [("mmg", i) for i in range(n_models)]
+    specs += [("corpus", name, text) for name, text in corpus.small_common()]
+    pool = concurrent.futures.ProcessPoolExecutor(max_workers=n_workers)
+    try:
+        jobs = [
+            pool.submit(worker, (list(argv), spec, n_instances, n_mutants, timeouts))
+            for spec in specs
+        ]
         for job in jobs:
+            # A time-out is never a violation: models not finished within 3x the budget
+            # are dropped (the legs themselves are bounded by ``timeouts``).
             remaining = max(budget * 3 - chk.elapsed(), 1.0)
             try:
                 chk.merge(job.result(timeout=remaining))
@@ -589,12 +647,15 @@ def main(argv) -> int:
                 job.cancel()
             except Exception as err:
                 chk.harness_error(f"worker failed: {err!r}")
+    finally:
+        pool.shutdown(wait=False, cancel_futures=True)
     best = max([chk.counters.get(f"{leg}_cases_compared", 0) for leg in LEGS] + [0])
     chk.counters["best_leg_cases_compared"] = best
     chk.require_min("best_leg_cases_compared", 100)
     chk.assume("integers within +-2^53 and finite floats only (JavaScript numbers, JSON)")
     chk.assume("JSON numbers compare after conversion to double; the sign of zero is not judged")
     chk.assume("messages of rejected documents are not compared, only accept/reject")
+    chk.assume("Java: the constant prefix 'Invariant violated:\\n' of every cause is stripped before causes are compared (design of the Java/C# SDKs)")
     chk.assume("C++: no JSON leg (nlohmann/json.hpp absent): instances are built through the generated constructors; verification, enumerations and constants are compared")
-    chk.assume("models restricted to what all four generators accept (see xsdk.CommonGenerator); models refused by one generator are skipped for that leg and counted")
+    chk.assume("models restricted to what all four generators accept (see xsdk.CommonGenerator); odd-numbered MMG models additionally use float properties, len(bytearray), integer sets and primitive constants, on which the Java leg is known to fail; models refused by one generator are skipped for that leg and counted")
     return chk.finish()
